@@ -165,9 +165,11 @@ def run(tier, seed, replay=None):
         "repaired" if fl["fix_json"] else "as shipped", flags))
 
     if replay:
-        case = json.load(open(replay)).get("case", "")
+        rj = json.load(open(replay))
+        case = rj.get("case", "")
         m, s = one(hbin, runner, flags, case)
         spec = [x for x in m if x["kind"] in ("spec", "wfq")]
+        spec.sort(key=lambda x: 0 if split_impl(x)[0] == rj.get("class") else 1)
         log("replay: %d mismatches (%d against the specification)" % (len(m), len(spec)))
         for x in m[:6]:
             log("  %s %s\n    impl=%s\n    expected=%s" % (x["kind"], x["case"][:200], x["impl"][:400], x["expected"][:400]))
@@ -197,7 +199,6 @@ def run(tier, seed, replay=None):
         worst = min(ms, key=lambda m: len(m["case"]))
         _, label, val = split_impl(worst)
         count = stats.get("spec/" + cls, len(ms))
-        reported_spec_classes.add(cls)
         desc, coqthm, patch = CLASS_DESC.get(cls, ("an observation of the real iterators differs from the forest specification", None, None))
         rep = {"theorem_or_correspondence": "C04 oracle: impl vs extracted specification (PV.Iter.Spec)" + (", Coq: " + coqthm if coqthm else ""),
                "case": worst["case"], "class": cls, "label": label, "impl": val, "spec": worst["expected"],
@@ -208,6 +209,7 @@ def run(tier, seed, replay=None):
         if cls in known:
             res.known_finding("class=%s witness=%s (%d cases)" % (cls, worst["case"][:160], count))
         else:
+            reported_spec_classes.add(cls)
             head = "an observation of the real iterators differs from the forest specification"
             if coqthm:
                 head += " (class `%s`; the shipped code has this defect in that class: %s)" % (cls, desc)
